@@ -45,6 +45,13 @@ def base_graph(rng, cyclic, nmax):
 def make(rng, name, node=False, with_starts=None, with_ignore=None, with_cons=None, nmax=5, exact=True):
     cyclic = name.endswith("Cycles")
     G0, routes = base_graph(rng, cyclic, nmax)
+    if node and G0.number_of_nodes() >= 2 and rng.random() < 0.15:
+        # a dotted node name whose prefix is another node's name ("v1" and "v1.5"): legal strings; the node expansion appends
+        # ".0"/".1" and must strip exactly that when it condenses routes
+        x, y = rng.sample(list(G0.nodes()), 2)
+        mp = {x: f"{y}.5"}
+        G0 = nx.relabel_nodes(G0, mp, copy=True)
+        routes = [[mp.get(v, v) for v in r] for r in routes]
     is_int = True if cyclic else (rng.random() < 0.7)
     scale = 1 if is_int else rng.choice([0.5, 0.25, 1.5])
     ws = [rng.choice([1, 2, 3, 4]) * scale for _ in routes]
